@@ -731,7 +731,14 @@ impl World {
             let o = self.rng.usize(self.owners.len());
             self.owners[o].addr_new
         };
-        let payload = vec![CoinData { covhash, value: CoinValue(v), denom: Denom::NewCustom, additional_data: Bytes::new() }];
+        let mut payload = vec![CoinData { covhash, value: CoinValue(v), denom: Denom::NewCustom, additional_data: Bytes::new() }];
+        if self.rng.chance(1, 3) {
+            // a second new-token output, possibly burnt at issue (destroy address) or sent anywhere
+            let c2 = self.random_addr();
+            let c2 = if self.rng.chance(1, 2) { destroy_addr() } else { c2 };
+            let v2 = self.amount(MAX_COINVAL);
+            payload.push(CoinData { covhash: c2, value: CoinValue(v2), denom: Denom::NewCustom, additional_data: Bytes::new() });
+        }
         let tx = self.complete(TxKind::Normal, inputs, payload, vec![], 0)?;
         self.customs.push(Denom::Custom(tx.hash_nosigs()));
         Some(tx)
@@ -756,6 +763,7 @@ impl World {
                 }
             };
             let value = self.amount(1u128 << 110).max(1_000_000);
+            let covhash = if self.rng.chance(1, 10) { destroy_addr() } else { covhash };
             outs.push(CoinData { covhash, value: CoinValue(value), denom, additional_data: Bytes::new() });
         }
         let fee = if self.rng.chance(1, 2) { 0 } else { self.rng.loguniform(40) };
@@ -1085,7 +1093,7 @@ impl World {
             let o = self.rng.usize(self.owners.len());
             self.owners[o].addr_new
         };
-        match self.rng.below(10) {
+        match self.rng.below(11) {
             0 => {
                 // swap request whose side total is zero
                 let pools = self.known_pools();
@@ -1172,7 +1180,15 @@ impl World {
                         d.stdcode()
                     }
                 };
-                let v = self.amount(avail.min(MAX_COINVAL));
+                let mut v = self.amount(avail.min(MAX_COINVAL));
+                let mut data = data;
+                if self.rng.chance(1, 3) {
+                    // a consistent document with extreme epochs: it registers, and must not break later blocks
+                    let epoch = self.height() / STAKE_EPOCH;
+                    v = v.min(1 << 60);
+                    let (s, e) = *self.rng.pick(&[(epoch + 1, u64::MAX), (u64::MAX - 1, u64::MAX), (epoch + 1, epoch + 2)]);
+                    data = StakeDoc { pubkey: self.owners[0].key.pk, e_start: s, e_post_end: e, syms_staked: CoinValue(v) }.stdcode();
+                }
                 let outs = if self.rng.chance(1, 4) { vec![] } else { vec![CoinData { covhash, value: CoinValue(v), denom: Denom::Sym, additional_data: Bytes::new() }] };
                 let tx = self.complete(TxKind::Stake, inputs, outs, data, 0)?;
                 Some((tx, "degenerate:stake-document".into()))
@@ -1226,6 +1242,30 @@ impl World {
                 let payload = vec![CoinData { covhash, value: CoinValue(0), denom: liq.1.coin_data.denom, additional_data: Bytes::new() }];
                 let tx = self.complete(TxKind::Normal, vec![mel, liq], payload, vec![], 0)?;
                 Some((tx, "degenerate:make-zero-liquidity-coin".into()))
+            }
+            9 => {
+                // a LiqWithdraw-kind transaction with TWO outputs (liquidity tokens to two different owners):
+                // not a withdrawal request, both outputs must stay as declared
+                let pools = self.known_pools();
+                let sp = self.spendable();
+                let key = pools.into_iter().find(|k| sp.iter().any(|(_, c)| c.coin_data.denom == k.liq_token_denom() && c.coin_data.value.0 >= 2))?;
+                let ld = key.liq_token_denom();
+                let inputs = self.pick_inputs(&[ld, Denom::Mel], 0);
+                let avail: u128 = inputs.iter().filter(|(_, c)| c.coin_data.denom == ld).map(|(_, c)| c.coin_data.value.0).sum();
+                if avail < 2 || avail > MAX_COINVAL || !inputs.iter().any(|(_, c)| c.coin_data.denom == Denom::Mel) {
+                    return None;
+                }
+                let a = self.amount(avail / 2);
+                let other = {
+                    let o = self.rng.usize(self.owners.len());
+                    self.owners[o].addr_legacy
+                };
+                let payload = vec![
+                    CoinData { covhash, value: CoinValue(a), denom: ld, additional_data: Bytes::new() },
+                    CoinData { covhash: other, value: CoinValue(avail - a), denom: ld, additional_data: Bytes::new() },
+                ];
+                let tx = self.complete(TxKind::LiqWithdraw, inputs, payload, key.to_bytes().to_vec(), 0)?;
+                Some((tx, "degenerate:withdraw-kind-with-several-outputs".into()))
             }
             8 => {
                 // a pool named with the "new custom token" pseudo-denomination: data = "" parses as NEWCUSTOM/MEL
